@@ -239,8 +239,14 @@ func c14RunVM(cc *c14Compiled, off int, args []c14Val) (stack []stackitem.Item, 
 	}()
 	v := vm.New()
 	steps := int64(0)
-	v.SetPriceGetter(func(op opcode.Opcode, p []byte) int64 { steps++; return 1 })
-	v.SetGasLimit(c14StepLimit)
+	limit := c14StepLimit
+	v.SetPriceGetter(func(op opcode.Opcode, p []byte) int64 {
+		if steps++; steps > limit {
+			panic("c14 step limit") // recovered by VM.execute: the run ends in a fault
+		}
+		return 0
+	})
+	v.SetGasLimit(-1)
 	v.LoadScriptWithFlags(cc.script, callflag.All)
 	for i := len(args) - 1; i >= 0; i-- {
 		v.Estack().PushItem(args[i].item())
@@ -253,7 +259,7 @@ func c14RunVM(cc *c14Compiled, off int, args []c14Val) (stack []stackitem.Item, 
 	c14LastSteps = steps
 	if err != nil {
 		msg := err.Error()
-		if steps >= c14StepLimit {
+		if steps > limit {
 			msg = "STEP LIMIT: " + msg
 			if c14Runaway++; c14Runaway == 8 {
 				c14StepLimit = 20_000
